@@ -19,6 +19,7 @@ from BASIC-visible state/host bytes (verify first, then normalise) and the histo
 
 import os
 import errno
+import logging
 
 from .. import kernel as K
 from ..basicdrv import Driver, EngineCrash
@@ -672,15 +673,15 @@ class Rand(Base):
         self.max_reclen = cfg['session'].get('max_reclen', 128)
 
     def suffix(self, name):
+        """One history marker (the most specific cause candidate) for the signature."""
         fl = self.flags.get(name, ())
-        s = ''
-        for k in ('put-beyond-eof(recno-1>LOF>0)', 'two-numbers-on-file'):
-            if k in fl:
-                s += ':' + k
         for k in sorted(fl):
             if k.startswith('after-'):
-                s += ':' + k
-        return s
+                return ':' + k
+        for k in ('two-numbers-on-file', 'put-beyond-eof(recno-1>LOF>0)', 'implicit-put-after-get-at-or-beyond-eof'):
+            if k in fl:
+                return ':' + k
+        return ''
 
     def flag(self, name, what):
         self.flags.setdefault(name, set()).add(what)
@@ -727,6 +728,11 @@ class Rand(Base):
             self.bad('file-bytes-mismatch' + self.suffix(name), 'host file %s (%d bytes) differs from the reference '
                      '(%d bytes) at offset %d: host %r, reference %r' % (name, len(host), len(want), i,
                                                                          host[i:i + 24], bytes(want[i:i + 24])))
+        else:
+            # proven equal: whatever happened to this file before left no trace
+            self.flags.pop(name, None)
+            if self.sharers(name):
+                self.flag(name, 'two-numbers-on-file')
 
     # ops ---------------------------------------------------------------------
 
@@ -869,6 +875,10 @@ class Rand(Base):
                 return self.bad('put-error' + self.suffix(name), '%r gave error %d' % (stmt, r.err))
             self.run.probe('put-fault->BASIC-error')
             return self.resync(n, (pos, new), 'PUT')
+        if op.get('rec') is None and h.get('get_at_eof'):
+            self.flag(name, 'implicit-put-after-get-at-or-beyond-eof')
+            self.run.probe('implicit-put-after-get-at-or-beyond-eof')
+        h['get_at_eof'] = False
         if gap > 0:
             self.run.probe('record-gap-filled')
             if pos > len(data) > 0:
@@ -911,6 +921,7 @@ class Rand(Base):
         got = bytes(data[start:start + h['reclen']])
         h['buf'] = bytearray(got.ljust(h['reclen'], b'\0'))
         h['pos'] = pos + 1
+        h['get_at_eof'] = start + h['reclen'] > len(data)
         if start >= len(data):
             self.run.probe('get-beyond-eof')
         self.check_buffer(n, h, 'get-mismatch')
@@ -944,6 +955,8 @@ class Rand(Base):
         self.note('loc', h)
         if err is not None:
             return self.bad('loc-error', 'LOC(%d) gave error %d' % (n, err))
+        if h['pos'] > 2 ** 24:
+            return   # LOC is a single-precision value: not every record number above 2^24 is representable
         if v != h['pos']:
             self.bad('loc-mismatch' + self.suffix(h['name']), 'LOC(%d)=%r, last record accessed is %d' % (n, v, h['pos']))
 
@@ -1147,6 +1160,10 @@ class Share(Base):
         h = self.h.get(n)
         if h is not None and h['mode'] != 'R' and a is not None:
             return    # record ranges on sequential files are documented to mean the whole file: left out
+        if a is not None and not (1 <= a <= bb <= 2 ** 24):
+            # inverted or out-of-range bounds are outside the property; above 2^24 record numbers go
+            # through single precision (documented GW-BASIC limitation) and are not individually addressable
+            return
         r = self.cx.x(stmt, 'LOCK')
         if h is None:
             self.note('lock-closed')
@@ -1182,6 +1199,8 @@ class Share(Base):
         h = self.h.get(n)
         if h is not None and h['mode'] != 'R' and a is not None:
             return
+        if a is not None and not (1 <= a <= bb <= 2 ** 24):
+            return
         r = self.cx.x(stmt, 'UNLOCK')
         if h is None:
             self.note('unlock-closed')
@@ -1212,6 +1231,8 @@ class Share(Base):
         h = self.h.get(n)
         if h is None or h['mode'] != 'R':
             return
+        if not 1 <= rec <= 2 ** 24:
+            return
         stmt = b'%s #%d,%d' % (word, n, rec)
         r = self.cx.x(stmt, word.decode())
         # (a lock holder open for OUTPUT/APPEND beside a RANDOM number can only exist after a
@@ -1238,3 +1259,418 @@ class Share(Base):
             if self.run.stop:
                 return
             self.op_close({'n': n})
+
+
+###############################################################################
+# generators (pure functions of rng)
+
+def _wchoice(rng, table):
+    t = sum(w for _, w in table)
+    x = rng.random() * t
+    for v, w in table:
+        x -= w
+        if x < 0:
+            return v
+    return table[-1][0]
+
+
+def _gen_bytes(rng, n, alpha, forbid):
+    out = []
+    while len(out) < n:
+        r = rng.random()
+        if alpha == 'plain':
+            c = rng.choice(b'ABCDEFGHIJKLMNOPQRSTUVWXYZabcdefghij0123456789    ,,')
+        elif alpha == 'punct':
+            c = rng.choice(b'AZaz09  ,,;:\'#$%&()*+-./<=>?@[\\]^_`{|}~!"')
+        else:
+            c = rng.randrange(256) if r < 0.6 else rng.choice(b' ,\t\r\n\x00\x07\x08\x0b\x0c\x1b\x7f\x80\xff"A')
+        if c not in forbid:
+            out.append(c)
+    return bytes(out)
+
+
+def _gen_len(rng, scfg, limit):
+    r = rng.random()
+    if scfg.get('len255') and r < 0.25:
+        return min(255, limit)
+    if r < 0.12:
+        return 0
+    if r < 0.60:
+        return rng.randint(1, 8)
+    if r < 0.85:
+        return rng.randint(9, 60)
+    if r < 0.96:
+        return rng.randint(61, min(253, limit))
+    return min(254, limit)
+
+
+def _gen_string(rng, scfg):
+    """A WRITE# string: no quote, NUL or EOF byte; line breaks only where the configuration reads them back."""
+    forbid = b'"\x00\x1a'
+    if scfg['crlf'] == 'none':
+        forbid += b'\r\n'
+    elif scfg['crlf'] == 'cr':
+        forbid += b'\n'
+    s = _gen_bytes(rng, _gen_len(rng, scfg, 255), scfg['alpha'], forbid)
+    r = rng.random()
+    if r < 0.15:
+        s = (b'  ' + s)[:254]
+    elif r < 0.30:
+        s = s[:252] + b'  '
+    return s
+
+
+def _gen_line(rng, scfg):
+    return _gen_bytes(rng, _gen_len(rng, scfg, 254 if not scfg.get('len255') else 255), scfg['alpha'], b'\r\n\x1a')
+
+
+def _gen_number(rng):
+    t = rng.choice('%!#')
+    if t == '%':
+        v = rng.choice([0, 1, -1, 32767, -32768, rng.randint(-32768, 32767), rng.randint(-99, 99)])
+        if v == SENT_N:
+            v = 7
+        return str(v), t
+    sign = rng.choice(['', '-'])
+    if t == '!':
+        m = rng.choice(['1', '1.5', '.001', '3.141593', '9.999999', '1234567', '16777216', '%.6f' % rng.random()])
+        e = rng.choice(['', '', 'E+10', 'E-10', 'E+30', 'E-30', 'E%+d' % rng.randint(-20, 20)])
+        return sign + m + e, t
+    m = rng.choice(['1', '.1', '3.141592653589793', '1.234567890123456', '123456789', '%.15f' % rng.random()])
+    e = rng.choice(['#', 'D+0', 'D+10', 'D-10', 'D+30', 'D-30', 'D%+d' % rng.randint(-20, 20)])
+    return sign + m + e, t
+
+
+FAULT_TABLE_SEQ = [
+    (('write', 60, ['ENOSPC', 'ENOSPC', 'EIO', 'EDQUOT']), 34), (('read', 40, ['EIO']), 24),
+    (('close', 1, ['EIO', 'ENOSPC']), 12), (('open', 3, ['EACCES', 'EIO', 'ENOSPC', 'EMFILE', 'EROFS']), 10),
+    (('stat', 3, ['EIO', 'EACCES']), 6), (('seek', 3, ['EIO']), 7), (('truncate', 1, ['EIO', 'ENOSPC']), 4),
+    (('listdir', 2, ['EIO']), 3),
+]
+FAULT_TABLE_RND = [
+    (('write', 3, ['ENOSPC', 'EIO']), 34), (('read', 3, ['EIO']), 22), (('seek', 6, ['EIO']), 14),
+    (('close', 1, ['EIO', 'ENOSPC']), 12), (('open', 3, ['EACCES', 'EIO', 'ENOSPC']), 9),
+    (('stat', 3, ['EIO']), 6), (('listdir', 2, ['EIO']), 3),
+]
+
+
+def _gen_fault(rng, table):
+    kind, maxn, errs = _wchoice(rng, table)
+    nth = 1 if rng.random() < 0.4 else rng.randint(1, maxn)
+    return {'op': 'fault', 'kind': kind, 'nth': nth, 'err': rng.choice(errs)}
+
+
+def gen24(rng, tier):
+    slf = rng.random() < 0.45
+    scfg = {
+        'alpha': _wchoice(rng, [('plain', 3), ('punct', 3), ('bytes', 4)]),
+        'crlf': _wchoice(rng, [('none', 6), ('cr', 2), ('crlf', 2)]) if slf else _wchoice(rng, [('none', 7), ('cr', 3)]),
+        'len255': rng.random() < 0.05,
+    }
+    cfg = {
+        'session': {'max_files': rng.randint(1, 6), 'soft_linefeed': slf},
+        'faults': rng.random() < 0.55, 'strings': scfg, 'len255': scfg['len255'],
+    }
+    maxf = cfg['session']['max_files']
+    names = ['F0.DAT', 'F1.DAT', 'F2', 'LONGNAME.TXT'][:rng.randint(1, 4)]
+    nops = rng.randint(6, 45) if tier == 'quick' else rng.randint(30, 180)
+    ops = []
+    opened = {}     # number -> (name, mode)   (generation-time guess)
+    written = {}    # name -> approximate record count
+    while len(ops) < nops:
+        r = rng.random()
+        if cfg['faults'] and r < 0.07:
+            ops.append(_gen_fault(rng, FAULT_TABLE_SEQ))
+            continue
+        if r < 0.025:
+            ops.append({'op': 'restart'})
+            opened = {}
+            continue
+        if not opened or r < 0.16:
+            n = rng.randint(1, maxf) if rng.random() < 0.93 else maxf + 1
+            name = rng.choice(names)
+            if written.get(name) and rng.random() < 0.6:
+                mode = _wchoice(rng, [('I', 6), ('A', 3), ('O', 1)])
+            else:
+                mode = _wchoice(rng, [('O', 6), ('A', 3), ('I', 1)])
+            ops.append({'op': 'open', 'n': n, 'name': name, 'mode': mode, 'syn': int(rng.random() < 0.25)})
+            if n not in opened and n <= maxf and not any(v[0] == name for v in opened.values()):
+                if mode != 'I' or written.get(name) is not None:
+                    opened[n] = (name, mode)
+                    if mode == 'O':
+                        written[name] = 0
+                    written.setdefault(name, 0)
+            continue
+        n = rng.choice(sorted(opened))
+        name, mode = opened[n]
+        if rng.random() < 0.04:
+            n = rng.randint(1, maxf + 1)      # some other number, whatever its state
+        if r < 0.28:
+            ops.append({'op': 'close', 'n': n} if rng.random() < 0.9 else {'op': 'closeall'})
+            opened.pop(n, None)
+            if ops[-1]['op'] == 'closeall':
+                opened = {}
+            continue
+        if r < 0.36:
+            ops.append({'op': rng.choice(['lof', 'lof', 'eof']), 'n': n})
+            continue
+        if mode == 'I':
+            k = _wchoice(rng, [('rditems', 6), ('rdline', 3), ('rdchars', 1.5)])
+            ops.append({'op': k, 'n': n, 'k': rng.randint(1, 6) if k == 'rditems' else rng.choice([1, 2, 3, 5, 17, 80, 255])})
+        else:
+            if rng.random() < 0.6:
+                items = []
+                for _ in range(_wchoice(rng, [(1, 4), (2, 3), (3, 2), (5, 1), (6, 1)])):
+                    if rng.random() < 0.6:
+                        items.append(['s', u(_gen_string(rng, scfg))])
+                    else:
+                        lit, t = _gen_number(rng)
+                        items.append(['n', lit, t])
+                ops.append({'op': 'write', 'n': n, 'items': items})
+            else:
+                ops.append({'op': 'print', 'n': n, 'line': u(_gen_line(rng, scfg))})
+            written[name] = written.get(name, 0) + 1
+    return cfg, ops
+
+
+def gen25(rng, tier):
+    max_reclen = rng.choice([1, 2, 7, 16, 32, 64, 128, 128, 128, 255])
+    cfg = {
+        'session': {'max_files': rng.randint(1, 6), 'max_reclen': max_reclen},
+        'faults': rng.random() < 0.45, 'share': rng.random() < 0.15,
+    }
+    maxf = cfg['session']['max_files']
+    names = ['R0.DAT', 'R1.DAT', 'R2'][:rng.randint(1, 3)]
+    lens = [min(max_reclen, x) for x in (1, 2, 3, 4, 5, 8, 13, 16, 32, 64, 100, 128, max_reclen)]
+    reclen_of = {nm: rng.choice(lens) for nm in names}
+    nops = rng.randint(8, 50) if tier == 'quick' else rng.randint(40, 220)
+    ops = []
+    opened = {}
+    while len(ops) < nops:
+        r = rng.random()
+        if cfg['faults'] and r < 0.06:
+            f = _gen_fault(rng, FAULT_TABLE_RND)
+            if f['kind'] == 'write' and rng.random() < 0.3:
+                f['torn'] = rng.randint(0, 8)
+            ops.append(f)
+            continue
+        if r < 0.02:
+            ops.append({'op': 'restart'})
+            opened = {}
+            continue
+        if not opened or r < 0.12:
+            n = rng.randint(1, maxf) if rng.random() < 0.93 else maxf + 1
+            name = rng.choice(names)
+            reclen = reclen_of[name] if rng.random() < 0.8 else rng.choice(lens + [max_reclen + 1])
+            ops.append({'op': 'ropen', 'n': n, 'name': name, 'reclen': reclen, 'syn': rng.randint(0, 2)})
+            if n not in opened and n <= maxf and reclen <= max_reclen:
+                opened[n] = (name, reclen)
+            continue
+        n = rng.choice(sorted(opened))
+        if rng.random() < 0.04:
+            n = rng.randint(1, maxf + 1)
+        if r < 0.19:
+            ops.append({'op': 'rclose', 'n': n})
+            opened.pop(n, None)
+        elif r < 0.25:
+            ops.append({'op': 'field', 'n': n, 'cuts': [round(rng.random(), 3) for _ in range(rng.randint(0, 4))],
+                        'cover': rng.choice([1.0, 1.0, 1.0, 0.5, 0.75])})
+        elif r < 0.45:
+            rl = opened.get(n, ('', 8))[1]
+            ln = min(255, _wchoice(rng, [(0, 1), (rng.randint(1, max(1, rl)), 6), (rl + rng.randint(1, 5), 2)]))
+            ops.append({'op': 'lset', 'n': n, 'f': _wchoice(rng, [(0, 5), (1, 3), (2, 2), (3, 1)]),
+                        'val': u(_gen_bytes(rng, ln, rng.choice(['plain', 'bytes']), b'')),
+                        'right': rng.random() < 0.4})
+        elif r < 0.55:
+            ops.append({'op': rng.choice(['lof', 'loc']), 'n': n})
+        else:
+            x = rng.random()
+            if x < 0.30:
+                rec = None
+            elif x < 0.70:
+                rec = str(rng.randint(1, 12))
+            elif x < 0.88:
+                rec = str(rng.choice([rng.randint(13, 60), rng.randint(61, 400), rng.randint(100, 2000)]))
+            else:
+                rec = rng.choice(['0', '-1', '-32768', '33554432', '33554440', '4E+7', '1E+10', '-1E+10', '16777215'])
+            ops.append({'op': 'put' if rng.random() < 0.5 else 'get', 'n': n, 'rec': rec})
+    return cfg, ops
+
+
+def gen26(rng, tier):
+    cfg = {'session': {'max_files': rng.randint(2, 6), 'max_reclen': 128}, 'faults': False}
+    maxf = cfg['session']['max_files']
+    names = ['S0.DAT'] if rng.random() < 0.7 else ['S0.DAT', 'S1.DAT']
+    seq_share = rng.random() < 0.35      # how often sequential modes mix in
+    nops = rng.randint(8, 45) if tier == 'quick' else rng.randint(40, 200)
+    ops = []
+    opened = {}      # n -> (name, mode)
+    locks = []       # generation-time guess of held locks (n, a, b)
+    big = tier != 'quick' or rng.random() < 0.2
+    while len(ops) < nops:
+        r = rng.random()
+        nums = sorted(opened)
+        if len(opened) < 2 or r < 0.14:
+            n = rng.randint(1, maxf) if rng.random() < 0.95 else maxf + 1
+            name = rng.choice(names)
+            if rng.random() < (seq_share if opened else seq_share / 2):
+                mode = rng.choice('IOA')
+            else:
+                mode = 'R'
+            access = ''
+            lock = ''
+            if rng.random() < 0.25:
+                access = {'I': 'R', 'O': 'W', 'A': 'RW', 'R': rng.choice(['R', 'W', 'RW'])}[mode]
+            if rng.random() < 0.3:
+                lock = rng.choice(['SHARED', 'SHARED', 'R', 'W', 'RW'])
+            ops.append({'op': 'open', 'n': n, 'name': name, 'mode': mode, 'access': access, 'lock': lock,
+                        'reclen': rng.choice([1, 4, 16, 128]), 'syn': rng.randint(0, 1), 'forword': rng.random() < 0.3})
+            if n not in opened and n <= maxf:
+                opened[n] = (name, mode)
+            continue
+        n = rng.choice(nums)
+        if rng.random() < 0.03:
+            n = rng.randint(1, maxf + 1)
+        if r < 0.22:
+            ops.append({'op': 'close', 'n': n})
+            opened.pop(n, None)
+            locks = [l for l in locks if l[0] != n]
+        elif r < 0.58:
+            # LOCK, aimed at a chosen relation to a held range
+            if opened.get(n, ('', 'R'))[1] != 'R' or rng.random() < 0.12:
+                a = bb = None
+            elif locks and rng.random() < 0.75:
+                _, c, d = rng.choice(locks)
+                if c is None:
+                    c, d = 1, 5
+                w = d - c
+                rel = rng.choice(['equal', 'inside', 'contains', 'left', 'right', 'adj-low', 'adj-high', 'touch-low',
+                                  'touch-high', 'contains-far'])
+                a, bb = {
+                    'equal': (c, d), 'inside': (c + (w > 1), d - (w > 0)), 'contains': (max(1, c - 1), d + 1),
+                    'left': (max(1, c - 2), c + w // 2), 'right': (d - w // 2, d + 2),
+                    'adj-low': (max(1, c - 3), max(1, c - 1)), 'adj-high': (d + 1, d + 3),
+                    'touch-low': (max(1, c - 2), c), 'touch-high': (d, d + 2),
+                    'contains-far': (1, d + rng.choice([1, 10, 1000])),
+                }[rel]
+                if a > bb:
+                    a, bb = bb, a
+                bb = min(bb, 16777216)
+                a = min(a, bb)
+            else:
+                a = rng.randint(1, 12) if not big or rng.random() < 0.8 else rng.choice([16777210, 16777000, 100000])
+                bb = a + _wchoice(rng, [(0, 3), (1, 2), (rng.randint(2, 6), 3)])
+                bb = min(bb, 16777216)
+            op = {'op': 'lock', 'n': n, 'a': a, 'b': bb}
+            if a is not None and a == bb and rng.random() < 0.5:
+                op['b'] = None       # single-record form
+            ops.append(op)
+            if all(not overlapping(relation(a, bb, l[1], l[2])) for l in locks):
+                locks.append((n, a, bb))
+        elif r < 0.78:
+            if locks and rng.random() < 0.7:
+                k, a, bb = rng.choice(locks)
+                x = rng.random()
+                if x < 0.6:
+                    pass
+                elif x < 0.75:
+                    k = rng.choice(nums)
+                elif a is not None:
+                    a, bb = rng.choice([(a, bb + 1), (max(1, a - 1), bb), (a, max(a, bb - 1)), (a + 1, max(a + 1, bb))])
+                op = {'op': 'unlock', 'n': k, 'a': a, 'b': bb}
+                if (k, a, bb) in locks:
+                    locks.remove((k, a, bb))
+            else:
+                a = rng.randint(1, 12)
+                op = {'op': 'unlock', 'n': n, 'a': a, 'b': a + rng.randint(0, 3)}
+            ops.append(op)
+        else:
+            if locks and rng.random() < 0.7:
+                _, c, d = rng.choice(locks)
+                if c is None:
+                    rec = rng.randint(1, 9)
+                else:
+                    rec = rng.choice([c, d, (c + d) // 2, max(1, c - 1), d + 1])
+            else:
+                rec = rng.randint(1, 12)
+            word = 'get' if rng.random() < 0.55 else 'put'
+            if word == 'put' and rec > 60:
+                word = 'get'
+            ops.append({'op': word, 'n': n, 'rec': rec})
+    return cfg, ops
+
+
+def gen(rng, tier, prop):
+    cfg, ops = {'C24': gen24, 'C25': gen25, 'C26': gen26}[prop](rng, tier)
+    return {'machine': NAME, 'prop': prop, 'cfg': cfg, 'ops': ops}
+
+
+###############################################################################
+# run / shrink
+
+def run(case):
+    simfs.install_fs_seams()
+    # the engine logs every translated I/O error; thousands of injected faults would flood stderr
+    logging.disable(logging.ERROR)
+    prop = case['prop']
+
+    def body(run):
+        cx = Ctx(run, case['cfg'])
+        with run.w:
+            cx.start()
+            m = {'C24': Seq, 'C25': Rand, 'C26': Share}[prop](cx, case['cfg'])
+            try:
+                for op in case['ops']:
+                    if run.stop:
+                        break
+                    m.step(op)
+                if not run.stop:
+                    m.finish()
+            except FaultCrash as e:
+                kinds = e.fired[-1][0]
+                run.violate(prop, 'fault-escapes:%s:%s:%s' % (e.label, kinds, e.crash.signature),
+                            'a host exception escaped instead of a BASIC error: %s: %s\n  statements: %s\n%s' % (
+                                e.crash.exc_type, e.crash.exc_msg, cx.witness(), e.crash.tb[-1200:]))
+                run.res['status'] = 'crash'
+            finally:
+                cx.fs.disarm()
+            if run.res['violations']:
+                try:
+                    cx.d.close()
+                except EngineCrash:
+                    pass
+            else:
+                cx.d.close()
+    return execute(case, body)
+
+
+def simplify(cfg, ops):
+    """Strictly simpler candidates: shorter strings, fewer items, plainer configuration."""
+    for i, op in enumerate(ops):
+        k = op['op']
+        if k == 'write':
+            if len(op['items']) > 1:
+                for j in range(len(op['items'])):
+                    yield cfg, ops[:i] + [dict(op, items=op['items'][:j] + op['items'][j + 1:])] + ops[i + 1:]
+            for j, it in enumerate(op['items']):
+                if it[0] == 's' and len(it[1]) > 1 and len(it[1]) != 255:
+                    for cand in (it[1][:1], it[1][:len(it[1]) // 2]):
+                        yield cfg, ops[:i] + [dict(op, items=op['items'][:j] + [['s', cand]] + op['items'][j + 1:])] + ops[i + 1:]
+                if it[0] == 'n' and it[1] != '1':
+                    yield cfg, ops[:i] + [dict(op, items=op['items'][:j] + [['n', '1', it[2]]] + op['items'][j + 1:])] + ops[i + 1:]
+        elif k == 'print' and len(op['line']) > 1 and len(op['line']) != 255:
+            for cand in (op['line'][:1], op['line'][:len(op['line']) // 2]):
+                yield cfg, ops[:i] + [dict(op, line=cand)] + ops[i + 1:]
+        elif k == 'lset' and len(op['val']) > 1:
+            yield cfg, ops[:i] + [dict(op, val=op['val'][:1])] + ops[i + 1:]
+        elif k == 'fault' and op['nth'] > 1:
+            yield cfg, ops[:i] + [dict(op, nth=1)] + ops[i + 1:]
+        elif k == 'field' and (op['cuts'] or op.get('cover', 1.0) != 1.0):
+            yield cfg, ops[:i] + [dict(op, cuts=[], cover=1.0)] + ops[i + 1:]
+        elif k == 'open' and (op.get('access') or op.get('lock')):
+            yield cfg, ops[:i] + [dict(op, access='', lock='')] + ops[i + 1:]
+    ses = cfg['session']
+    if ses.get('max_files', 3) != 3 and all(op.get('n', 1) <= 3 for op in ops):
+        yield dict(cfg, session=dict(ses, max_files=3)), ops
+    if ses.get('soft_linefeed'):
+        yield dict(cfg, session=dict(ses, soft_linefeed=False)), ops
